@@ -520,5 +520,6 @@ func runC07(c *Ctx) {
 			}}
 		scs = append(scs, p2)
 	}
+	scs = append(scs, c07Scenario64(c))
 	runScenarios(c, scs...)
 }
